@@ -87,6 +87,9 @@ type Opts struct {
 	// are put before, between and after them, the kinds come in slices with spare capacity, and the
 	// caller overwrites its own slices as soon as the JApi value has been created.
 	BanLayout uint64 `json:"ban_layout,omitempty"`
+	// UnknownBans: values that are no directive kind at all, banned as well (they occur nowhere, so
+	// they must change nothing).
+	UnknownBans []int `json:"unknown_bans,omitempty"`
 }
 
 func (o Opts) options() []core.Option {
@@ -112,6 +115,10 @@ func (o Opts) optionsAndScribble() ([]core.Option, func()) {
 			g2 := r.n(len(groups))
 			groups[g2] = append(groups[g2], directive.Enumeration(b)) // named twice
 		}
+	}
+	for _, b := range o.UnknownBans {
+		g := r.n(len(groups))
+		groups[g] = append(groups[g], directive.Enumeration(b))
 	}
 	var oo []core.Option
 	empty := func() {
@@ -167,6 +174,9 @@ func (o Opts) plainOptions() []core.Option {
 	if len(o.Banned) > 0 {
 		dd := make([]directive.Enumeration, 0, len(o.Banned))
 		for _, b := range o.Banned {
+			dd = append(dd, directive.Enumeration(b))
+		}
+		for _, b := range o.UnknownBans {
 			dd = append(dd, directive.Enumeration(b))
 		}
 		if o.SplitBans && len(dd) > 1 {
